@@ -372,8 +372,15 @@ def run(tier, seed):
         maxpre = max(len(p) for p in pres)
         amb = [n for n in allnames if candidate_count(n, stems, pres, maxpre) >= 2]
         rest = rng.sample(allnames, 10000)
-        names = list(dict.fromkeys(["kilometers", "mm", "min"] + amb + rest))
-        run.note("quick_selection", {"all_names": len(allnames), "preselected_ambiguous": len(amb), "random": len(rest)})
+        # names that also live in another namespace of the registry (quantities, substances, symbols, definitions that are
+        # not units, categories), bare and behind every prefix: the places where canonicalisation may follow the wrong table
+        otherns = set(q["s"] for q in dump["quantities"]) | set(x["s"] for x in dump["substances"]) \
+            | set(d["s"] for d in dump["defs"] if not d.get("is_unit")) | set(s_of(x["sym"]) for x in dump["symbols"]) \
+            | set(s_of(c["id"]) for c in dump["category_names"])
+        allset = set(allnames)
+        cross = [n for n in otherns if n in allset] + [p + o for p in sorted(pres) for o in sorted(otherns) if p + o in allset]
+        names = list(dict.fromkeys(["kilometers", "mm", "min"] + amb + cross + rest))
+        run.note("quick_selection", {"all_names": len(allnames), "preselected_ambiguous": len(amb), "cross_namespace": len(cross), "random": len(rest)})
     vinfo = leg_bundled(run, dump, envp, names, 16 if thorough else 10, tier)
     vinfo["all_names"] = len(allnames)
     run.note("bundled", vinfo)
